@@ -34,6 +34,8 @@ def owner_of(P, f):
 
 
 def run(ctx):
+    from .C15 import every_context_refreshed
+    every_context_refreshed(ctx)
     # locals / parameters the rules below refer to by name (a rename makes the analysis 'broken', never a violation)
     ctx.anchor(ctx.fn1('Oomd::Senpai::tick_immediate_backoff'), 'validate', 'reclaim_size', 'current_opt', 'limit_min_bytes_opt', 'original_swappiness', 'cgroup_ctx')
     ctx.anchor(ctx.fn1('Oomd::Senpai::run'), 'resolvedIt', 'trackedIt', 'resolved_cgroups')
